@@ -147,6 +147,9 @@ def _items(ctx):
     # --- dtype x layout x entry point ---------------------------------------------------
     for which in ("permanent", "hafnian", "torontonian", "pfaffian", "jaxperm"):
         items.append(("variants", which))
+    # --- (lead) homogeneity under power-of-two scaling: matrices of very small / very large norm ----
+    for m in (2, 3, 4):
+        items.append(("hafscale", m))
     return items
 
 
@@ -407,6 +410,9 @@ def replay(ctx, case, signature):
         elif exported is not None:
             for sig, c, msg in exported["violations"]:
                 ctx.violation(sig, c, msg)
+        return
+    if case.get("kind") == "hafscale":
+        _work_hafscale(ctx, ("hafscale", case["m"]))
         return
     res = evaluate_case(case)
     if res is not None:
@@ -1004,6 +1010,79 @@ def _work_contained(ctx, item):
         raise core.HarnessError("HARNESS-NONDETERMINISM C04: contained item %r died once (%s) but not reproducibly" % (item, crash))
     ctx.count("contained_items_died")
     _crash_violation(ctx, crash, {"kind": "crash_item", "item": list(item)})
+
+
+def _work_hafscale(ctx, item):
+    """Matrix entries of the other hafnian items are of order one, so the internal rescaling of the
+    numba hafnians (`_scale_matrix`: the matrix is normalised and the result compensated) is only ever
+    exercised near scale 1.  Metamorphic oracle, exact in binary floating point: for s = 2**e,
+    haf(s*A; occ) == s**(T/2) * haf(A; occ) for even total T (power-of-two scaling commutes with every
+    rounding), checked RELATIVELY (1e-9) against the library's own value at s = 1 -- which the `haf`
+    items compare with the exact reference -- for every occupation vector up to total 6 and e in
+    {-60, -40, -30, -20, 20, 40}; likewise every entry of the batched variant."""
+    import itertools
+
+    import numpy as np
+    from mc import c04_inputs as IN
+    from piquasso._math.hafnian import hafnian_with_reduction, hafnian_with_reduction_batch
+
+    _, m = item
+    mats = [x for x in IN.haf_matrices(ctx.seed, m, ctx.tier) if x[0] in ("generic0", "rank1", "offdiag", "ones")]
+    T = 6 if ctx.tier == "quick" else 8
+    exps = (-60, -40, -30, -20, 20, 40)
+    for name, (num, den) in mats:
+        A = np.array([[complex(a[0], a[1]) for a in row] for row in num], dtype=complex) / den
+        for occ in itertools.product(range(T + 1), repeat=m):
+            tot = sum(occ)
+            if tot == 0 or tot > T or tot % 2:
+                continue
+            o = np.array(occ, dtype=np.int64)
+            base = complex(hafnian_with_reduction(A.copy(), o))
+            base_b = np.asarray(hafnian_with_reduction_batch(A.copy(), o, 3), dtype=complex)
+            # natural rounding scale: the same sums over |entries| (no cancellation), so that an exact zero
+            # that comes out as 1e-16 at s = 1 is not compared relatively with its own rounding noise
+            absA = np.abs(A).astype(complex)
+            amax = float(np.abs(A).max())
+
+            def _matchings(t):  # (t-1)!!, the number of perfect matchings on t vertices
+                r = 1.0
+                while t > 1:
+                    r *= t - 1
+                    t -= 2
+                return r
+
+            # ... plus the crude bound max|a|^(T/2) (T-1)!!, the scale of the intermediate sums when the
+            # reduced matrix has structural zeros (exact value 0, nat = 0, result = rounding noise)
+            nat = abs(complex(hafnian_with_reduction(absA.copy(), o))) + amax ** (tot // 2) * _matchings(tot)
+            nat_b = np.abs(np.asarray(hafnian_with_reduction_batch(absA.copy(), o, 3), dtype=complex)) + np.array(
+                [amax ** ((tot + k + 1) // 2) * _matchings(tot + k + (tot + k) % 2) for k in range(3)]
+            )
+            for e in exps:
+                s = 2.0**e
+                got = complex(hafnian_with_reduction((A * s).copy(), o))
+                exp = base * s ** (tot // 2)
+                ctx.count("kernel_calls_compared")
+                ctx.note_distinct(("hafscale", m, name, occ, e))
+                if not (abs(got - exp) <= 1e-9 * nat * s ** (tot // 2)) and not (exp == 0 and got == 0):
+                    ctx.violation(
+                        {"check": "C04", "sub": "value", "kernel": "hafnian", "input_class": "matrix_norm_far_from_one", "oracle": "homogeneity"},
+                        {"kind": "hafscale", "m": m, "matrix_name": name, "occ": list(occ), "exp2": e},
+                        "hafnian_with_reduction(2**%d * %s, occ=%s) = %r, expected 2**(%d*%d) * %r = %r" % (e, name, occ, got, e, tot // 2, base, exp),
+                    )
+                gb = np.asarray(hafnian_with_reduction_batch((A * s).copy(), o, 3), dtype=complex)
+                for k in range(len(gb)):
+                    tk = tot + k
+                    if tk % 2:
+                        continue
+                    ek = base_b[k] * s ** (tk // 2)
+                    ctx.count("kernel_calls_compared")
+                    if not (abs(gb[k] - ek) <= 1e-9 * nat_b[k] * s ** (tk // 2)) and not (ek == 0 and gb[k] == 0):
+                        ctx.violation(
+                            {"check": "C04", "sub": "value", "kernel": "hafnian_batch", "input_class": "matrix_norm_far_from_one", "oracle": "homogeneity"},
+                            {"kind": "hafscale", "m": m, "matrix_name": name, "occ": list(occ), "exp2": e, "entry": k},
+                            "hafnian_with_reduction_batch(2**%d * %s, occ=%s)[%d] = %r, expected %r" % (e, name, occ, k, gb[k], ek),
+                        )
+    ctx.sample({"kind": "hafscale", "m": m, "scales": ["2**%d" % e for e in exps]})
 
 
 def _work_warm(ctx, item):
